@@ -46,6 +46,7 @@ fn main() {
         "C03" => props::c03::run_c03(&report, &tier),
         "C04" => props::c04::run(&report, &tier),
         "C05" => props::c03::run_c05(&report, &tier),
+        "C06" => props::c06::run(&report, &tier),
         "C07" => props::c07::run(&report, &tier),
         "C11" => props::c11::run(&report, &tier),
         "C12" => props::c12::run(&report, &tier),
